@@ -90,8 +90,14 @@ func Main(p Program) {
 		outPath   = flag.String("out", "", "internal")
 		progPath  = flag.String("progress", "", "internal")
 		budgetSec = flag.Float64("budget", 0, "internal")
+		confirm   = flag.String("confirm", "", "internal: JSON list of choices of the one execution to run")
 	)
 	flag.Parse()
+	if *confirm != "" {
+		if err := json.Unmarshal([]byte(*confirm), &confirmChoices); err != nil || confirmChoices == nil {
+			confirmChoices = []int{}
+		}
+	}
 	root = *rootFlag
 	if *tier != "quick" && *tier != "thorough" {
 		fmt.Fprintln(os.Stderr, "bad tier", *tier)
@@ -132,6 +138,7 @@ type workerRun struct {
 	shard    int
 	startPos int
 	onlyItem int
+	confirm  string // JSON choices: run this one execution only
 	outPath  string
 	progPath string
 	cmd      *exec.Cmd
@@ -162,6 +169,9 @@ func spawn(p Program, famIdx int, fam *Family, tier string, seed int64, nshards 
 		"-shard", fmt.Sprint(wr.shard), "-nshards", fmt.Sprint(nshards), "-startpos", fmt.Sprint(wr.startPos),
 		"-onlyitem", fmt.Sprint(wr.onlyItem), "-out", wr.outPath, "-progress", wr.progPath,
 		"-budget", fmt.Sprintf("%.1f", budget.Seconds()), "-root", root}
+	if wr.confirm != "" {
+		args = append(args, "-confirm", wr.confirm)
+	}
 	cmd := exec.Command("/bin/sh", args...)
 	cmd.Env = append(os.Environ(), "GOMAXPROCS=1", "GOTRACEBACK=single")
 	cmd.Stdout = nil
@@ -222,6 +232,24 @@ type famOutcome struct {
 	violations []Violation
 	nondet     []string
 	harnessErr []string
+}
+
+// suspectsOf lists the violations a worker saw once but could not repeat in-process.
+func suspectsOf(path string) (out []Violation) {
+	f, err := os.Open(path)
+	if err != nil {
+		return nil
+	}
+	defer f.Close()
+	sc := bufio.NewScanner(f)
+	sc.Buffer(make([]byte, 1<<20), 64<<20)
+	for sc.Scan() {
+		var r record
+		if json.Unmarshal(sc.Bytes(), &r) == nil && r.Type == "suspect" && r.Violation != nil {
+			out = append(out, *r.Violation)
+		}
+	}
+	return
 }
 
 func readOut(path string) (last *Stats, vio []Violation, nondet []string, done bool) {
@@ -333,6 +361,36 @@ func runFamily(p Program, famIdx int, fam *Family, tier string, seed int64, nwor
 				}
 				wr.wait(hang)
 				last, vio, nondet, done := readOut(wr.outPath)
+				// violations that did not repeat inside the worker: run each as the first
+				// execution of two fresh processes; if both violate with the same key the
+				// code under test carries state between executions and the violation
+				// stands, otherwise the harness is nondeterministic
+				for si, sv := range suspectsOf(wr.outPath) {
+					cj, _ := json.Marshal(sv.Choices)
+					if sv.Choices == nil {
+						cj = []byte("[]")
+					}
+					confirmed := 0
+					for t := 0; t < 2; t++ {
+						wr2 := &workerRun{shard: 0, onlyItem: sv.Item, confirm: string(cj),
+							outPath:  filepath.Join(scratch, fmt.Sprintf("f%d-s%d-%d-confirm%d-%d.jsonl", famIdx, s, seg, si, t)),
+							progPath: filepath.Join(scratch, fmt.Sprintf("f%d-s%d-%d-confirm%d-%d.progress", famIdx, s, seg, si, t))}
+						if err := spawn(p, famIdx, fam, tier, seed, 1, wr2, 0); err != nil {
+							break
+						}
+						wr2.wait(hang)
+						_, v2, _, d2 := readOut(wr2.outPath)
+						if d2 && len(v2) == 1 && v2[0].Key == sv.Key {
+							confirmed++
+						}
+					}
+					if confirmed == 2 {
+						sv.Detail += "\n(violates as the first execution of a fresh process, 2 of 2 times; did not repeat when re-executed in the same process: state is carried over between executions)"
+						vio = append(vio, sv)
+					} else {
+						nondet = append(nondet, fmt.Sprintf("family=%s item=%d choices=%v: violation %s seen once, not repeated in-process, confirmed in %d of 2 fresh processes", fam.Name, sv.Item, sv.Choices, sv.Key, confirmed))
+					}
+				}
 				mu.Lock()
 				merge(&fo.res, last)
 				fo.violations = append(fo.violations, vio...)
